@@ -26,7 +26,7 @@ def progress_scenarios(ctx, n, start):
     out = []
     for k in range(n):
         run = start + k
-        fam = k % 5
+        fam = k % 6
         nev = rng.randint(2, 12)
         if fam == 0:      # capacity 1..2: reader blocks on the pool for almost every event
             sc = core.base(run, cap=rng.choice([1, 1, 2]), pool=rng.choice(["std", "low_memory"]), workers=rng.choice([1, 2]),
@@ -37,6 +37,13 @@ def progress_scenarios(ctx, n, start):
                            batch=rng.choice([1, 2]), timeout_ms=rng.choice([10, 30]), single=rng.random() < 0.3,
                            lines=core.random_lines(rng, nev, rng.choice([1, 2]), rng.choice([["a"], ["a", "b"]]),
                                                    rng.choice([["H", "C", "C", "P", "H"], ["H", "N", "C", "N"], ["H", "N"], ["G", "P", "Q"], ["G", "C", "P", "G"]])))
+        elif fam == 5:    # a run of chunks (class U: collapsed, nothing held) on one source that goes silent: the stream's time-out ends
+            # the run (the action answers it with discard) and the ONE processor must go and serve the other source
+            t = rng.choice([10, 30])
+            nk = rng.randint(1, 3)
+            lines = [dict(id=i + 1, src=1, stream="a", cls="U") for i in range(nk)]
+            lines += [dict(id=nk + 1, src=2, stream="a", cls="P", wait_ms=t + 250), dict(id=nk + 2, src=2, stream="a", cls=rng.choice(["P", "D"]))]
+            sc = core.base(run, cap=8, pool=rng.choice(["std", "low_memory"]), workers=1, batch=1, timeout_ms=t, single=True, lines=lines)
         elif fam == 2:    # partially filled batches: only the flush timer can hand them over
             sc = core.base(run, cap=16, workers=rng.choice([1, 2, 3]), batch=rng.choice([4, 7, 16]), flush_ms=rng.choice([5, 20, 50]),
                            lines=core.random_lines(rng, nev, rng.choice([1, 2]), ["a", "b"], ["P", "P", "D"]))
@@ -83,6 +90,10 @@ def run(ctx):
     ctx.sample({"lost_wakeup_schedule_from_TLC": trap.trace[-1][1].get("gate", "")})
     # Pipeline.tla under fairness
     split = {"Classes": '{"S"}', "KidsPer": "2", "KidBase": "20", "MaxId": "22"}     # children fill the batch, the parent sits alone in the next one
+    ctx.tlc_expect_ok("Pipeline", "Pipeline_k.cfg", timeout=1800, deadlock=False, name="Pipeline/chunk runs (class U)")
+    km = ctx.tlc("Pipeline", "Pipeline_k_mut.cfg", timeout=1800, deadlock=False, name="Pipeline/mutant-M_DiscardResetsBusy")
+    if km.ok or km.violated != "TimeoutEndsTheWait":
+        raise vlib.Infra("spec mutant M_DiscardResetsBusy is not rejected by TimeoutEndsTheWait (violated=%s)" % km.violated)
     lives = [{}, {"Classes": '{"P", "H", "C"}'}, {"Strs": '{"a", "b"}', "Capacity": "1"}, split]
     if thorough:
         lives.append({"HasDQ": "TRUE", "MaxFails": "2", "Classes": '{"P"}'})
